@@ -1,7 +1,8 @@
 (* C20 obligations against the CURRENT source: Gen/CmdGuards.v is regenerated from the generators' Go source
    on every run. `guards_ok` stops checking the moment one of the modelled lookups loses its guard (a nil test,
-   a length test, the progress test, the visited set, the renderer's recover) or a panic( call appears in
-   printSequenceDiagramStatements. *)
+   a length test, the progress test, the renderer's recover), one of the four visited-set walks (WalkPassthrough,
+   visitEndpoint, the two mermaid printers) changes WHEN it tests / marks / un-marks its set to a discipline that
+   does not terminate on every graph, or a panic( call appears in printSequenceDiagramStatements. *)
 From Coq Require Import List Bool NArith Arith String.
 Import ListNotations.
 Require Import Verif.Cmds.Walk Verif.Cmds.Model Verif.Cmds.ModelProps Verif.Gen.CmdGuards.
@@ -14,9 +15,15 @@ Proof. reflexivity. Qed.
 Lemma no_top_recover : top_recover = false.
 Proof. reflexivity. Qed.
 
-(* library code on the command paths never terminates the process itself: the only os.Exit / *.Fatal* call is main's *)
+(* which code terminates the process itself (os.Exit, a Fatal log call): in the packages of the diagram / export / database
+   commands only main; the expression evaluator (template, codegen, repl) exits from its panic handler - after it
+   has logged the evaluation stack, with status 1 - and from the debugger's quit command *)
 Definition exit_sites := filter (fun s => String.eqb (snd (fst s)) "exit") abort_sites.
-Lemma only_main_exits : map (fun s => fst (fst s)) exit_sites = ["sysl.main"%string].
+Definition in_eval (fn:string) : bool := String.prefix "eval." fn.
+Lemma only_main_exits : map (fun s => fst (fst s)) (filter (fun s => negb (in_eval (fst (fst s)))) exit_sites) = ["sysl.main"%string].
+Proof. reflexivity. Qed.
+Lemma eval_exit_sites : map (fun s => fst (fst s)) (filter (fun s => in_eval (fst (fst s))) exit_sites)
+                        = ["eval.repl.handleInput"; "eval.exprEval.handlePanic"]%string.
 Proof. reflexivity. Qed.
 
 (* none of the functions transliterated in Model.v calls panic( *)
@@ -31,10 +38,45 @@ Definition modelled_functions : list string :=
    "exporter.EndpointExporter.setEndpointParams"; "exporter.EndpointExporter.setCommonAttributes"; "syslwrapper.AppMapper.mapResponse";
    "database.findTableDepth"; "database.processTableDepth"; "database.CreateTableDepthMap"; "database.foreignKeyTarget";
    "database.ScriptView.writeCreateSQLForAColumn"; "database.ScriptView.writeModifySQLForAColumn";
-   "sysl.diagramCmd.Execute"; "sysl.renderMermaid"]%string.
+   "sysl.diagramCmd.Execute"; "sysl.renderMermaid";
+   "cmdutils.SequenceDiagramVisitor.visitEndpoint"; "cmdutils.SequenceDiagramVisitor.visitEndpointCollection"; "cmdutils.EndpointElement.target";
+   "database.ScriptView.ProcessModSysls"; "database.findAddedDeletedRetainedTables"; "database.ScriptView.generateDatabaseScriptModify";
+   "database.ScriptView.writeCreateSQLForATable"; "database.ScriptView.writeModifySQLForATable";
+   "sysl.templateCmd.Execute"; "transforms.NewWorker"; "transforms.templated.Apply"; "transforms.semantic.Apply";
+   "sysl.testRigCmd.Execute"; "testrig.GenerateRig"; "testrig.appNeedsDB"; "testrig.readUserData"]%string.
 Lemma modelled_functions_do_not_panic :
   filter (fun s => existsb (String.eqb (fst (fst s))) modelled_functions) abort_sites = [].
 Proof. reflexivity. Qed.
 
-Theorem current_cmd_total m rend fuel c : (fuel_bound m <= fuel)%nat -> fine (run current m rend fuel c) = true.
+(* Hang side. Every function of the packages the commands reach that calls itself directly (Gen table
+   recursive_functions, regenerated each run) is either covered by a termination theorem of this development or named
+   here as NOT proved; a new direct recursion in those packages makes this lemma fail.
+   proved:   ProcessCalls (structural over the statement tree; the re-entry through its handler is the pass-through walk:
+             ints_fine), processTableDepth (db_order_fine), the two mermaid printers (mseq_fine, mint_fine). The mutual
+             recursions visitEndpoint -> visitStatment -> visitCall -> visitEndpoint (sd_fine), generate*DiagramHelper <->
+             print*Statements and WalkPassthrough <-> ProcessExcludeAndPassthrough are the same walks.
+   unproved: structural recursions over a finite protobuf / expression / grammar tree or a string that is consumed
+             (not modelled), and type-reference resolution in the exporters (observed by the CPU-limit oracle only). *)
+Definition proved_recursions : list string :=
+  ["integrationdiagram.ProcessCalls"; "database.processTableDepth"; "sequencediagram.printSequenceDiagramStatements";
+   "integrationdiagram.printIntegrationDiagramStatements"]%string.
+Definition unproved_recursions : list string :=
+  ["sysl.removeSourceContextImpl"; "sysl.Serialize"; "cmdutils.FormatParser.Expansions"; "cmdutils.GetReturnPayload";
+   "exporter.OpenAPI3Exporter.exportType"; "integrationdiagram.printIntegrationDiagramStatementsTargetedApp";
+   "datamodeldiagram.getRelatedTypes"; "endpointanalysisdiagram.printEndpointAnalysisStatements";
+   "syslwrapper.ReturnStatements"; "syslwrapper.AppMapper.resolveType"; "syslwrapper.AppMapper.MapType"; "syslwrapper.MakeType"; "syslutil.GetTypeDetail";
+   "eval.attributeToValue"; "eval.exprEval.eval"; "eval.isValueExpectedType"; "eval.reflectToValue"; "eval.UnaryString";
+   "validate.Validator.compareTuple"; "validate.Validator.validateTfmReturn"; "ebnfparser.WalkerOps.WalkTermNode"]%string.
+Lemma recursions_accounted :
+  forallb (fun f => existsb (String.eqb f) (proved_recursions ++ unproved_recursions)) recursive_functions = true.
+Proof. reflexivity. Qed.
+Lemma proved_recursions_present : forallb (fun f => existsb (String.eqb f) recursive_functions) proved_recursions = true.
+Proof. reflexivity. Qed.
+
+(* the marker disciplines read from the current source terminate on every graph (instances of WalkProps.walk_total) *)
+Lemma current_disciplines_terminate :
+  terminating (g_ints_disc current) && terminating (g_sd_disc current) && terminating (g_mseq_disc current) && terminating (g_mint_disc current) = true.
+Proof. reflexivity. Qed.
+
+Theorem current_cmd_total m rend fuel c : (fuel_bound m + cmd_extra c <= fuel)%nat -> fine (run current m rend fuel c) = true.
 Proof. apply cmd_total, guards_ok. Qed.
